@@ -7,7 +7,7 @@ from ..hx import assume, require, Skip
 MANIFEST = dict(
     engines="AB",
     technique="symbolic execution (CrossHair+z3) of patches_from_ed_script/patch_lines with symbolic line numbers, command kind, text lines and line contents against reference ed semantics and an independent LCS diff; regex-to-SMT equivalence of the command regex with the ed command grammar",
-    text="Engine A: for old files of up to 5 lines, every single command (Na, Nd, N,Md, Nc, N,Mc with symbolic in-range numbers and 0-2 symbolic text lines) and every descending two-command script gives exactly the reference ed result, for str and bytes; for all old/new files of up to 3-4 one-character lines (symbolic characters, i.e. every equality pattern) the script of an independent diff patches old into new; a symbolic command line of up to 4 characters is accepted iff it is in the grammar [0-9]+(,[0-9]+)?[acd] (and not a ranged 'a'), and unterminated text blocks raise ValueError. Engine B: the live command regexes (str and bytes) accept exactly that grammar for lines of any length.",
+    text="Engine A: for old files of up to 5 lines, every single command (Na, Nd, N,Md, Nc, N,Mc with symbolic in-range numbers and 0-2 symbolic text lines) and every descending two-command script gives exactly the reference ed result, for str and bytes; for all old/new files of up to 3-4 one-character lines (symbolic characters, i.e. every equality pattern) the script of an independent diff patches old into new; a symbolic command line of up to 4 characters is accepted iff it is in the grammar [0-9]+(,[0-9]+)?[acd] (and not a ranged 'a'), and unterminated text blocks raise ValueError. Engine B: the live command regexes (str and bytes) accept exactly that grammar for lines of any length. Unterminated blocks also after eight kinds of complete earlier commands.",
     note="Trusted: CrossHair/z3 models of int/str/list slicing; the reference ed semantics and diff in this file (written from ed(1)). Outside: semantically invalid but syntactically well-formed commands (reversed ranges, line numbers beyond the file, address 0 for c/d), text lines consisting of a single '.', diff -e itself.",
 )
 
